@@ -15,6 +15,65 @@ CHECKS = {
              "helpers run un-jitted (same source); process pools not exercised.",
         technique="property-based testing (Hypothesis) with reference model + controlled-scheduler schedule fuzzing",
     ),
+    "C02": dict(
+        category="exploration",
+        text="Model-based histories (generated operation lists over one shared storage directory: set_config of "
+             "tracked / untracked / shared / child options, re-registration variants, in-place version bumps, "
+             "new_context, make / get from two contexts, fuzzy toggles) checked after every step against an "
+             "independent lineage model and a fresh Context on an empty directory; key stability across insertion "
+             "orders and across child interpreters with other PYTHONHASHSEEDs.",
+        design_ref="DESIGN.md §5 C02",
+        note="Option values that strax cannot serialise (np scalars / arrays / immutabledict in tracked options) are "
+             "skipped and counted; ambiguous value pairs (1 / 1.0 / True) accept both outcomes.",
+        technique="model-based (stateful) property testing with reference lineage model + cross-process differential",
+    ),
+    "C14": dict(
+        category="exploration",
+        text="Generated superruns (1-4 subruns with own rows / chunkings / gaps, shuffled definitions, 1-3 plugin "
+             "levels with the first superrun level anywhere incl. exhaust and two-dependency plugins, "
+             "write_superruns, rechunking across borders, both processors, histories with re-read, combining and "
+             "redefinition) against a pure list evaluator and the literal concatenation of per-subrun results; "
+             "span bookkeeping predicate on every yielded / stored chunk and metadata entry; continuity_check "
+             "driven with hand-built streams.",
+        design_ref="DESIGN.md §5 C14",
+        note="DataDirectory with run documents at ms resolution; threaded runs under the controlled scheduler; "
+             "numba helpers un-jitted.",
+        technique="property-based testing with reference evaluator + validity predicate over chunk annotations",
+    ),
+    "C15": dict(
+        category="exploration",
+        text="multi_run requests (2-8 runs, 1-8 workers, single / multiple same-kind targets, cold / warm caches, "
+             "storage, run-id options, failing runs with and without ignore_errors, get_array / get_df / make) "
+             "executed under the controlled scheduler with line-level preemption of strax/context.py and "
+             "strax/utils.py; oracle = sequential single-run results in sorted run-id order, exact failure "
+             "semantics, no foreign exception in any worker, registry and caches equal to a sequential execution.",
+        design_ref="DESIGN.md §5 C15, §3",
+        note="Workers use the single-thread processor (as multi_run does); real-thread supplement only in the "
+             "thorough tier, its failures count only if reproduced under a controlled schedule.",
+        technique="schedule fuzzing with line-level preemption (controlled scheduler) vs sequential reference",
+    ),
+    "C17": dict(
+        category="exploration",
+        text="Quadratic reference definitions for containment, touching windows, split functions, overlap indices, "
+             "diff / break finding, time-to-neighbour and sorting, compared exhaustively on all configurations of "
+             "<= 4 things and <= 3 containers on a 7-point grid (both encodings, windows -2..3; a seed-chosen slice "
+             "in the quick tier) and on random arrays up to 200 rows; unsorted inputs must be rejected; sorting "
+             "stable and deterministic.",
+        design_ref="DESIGN.md §5 C17",
+        note="Documented preconditions only (sorted inputs, non-overlapping containers for containment ...); with "
+             "unsorted endtimes only the documented weaker touching-window guarantee.",
+        technique="exhaustive small-scope enumeration + property-based testing vs reference model",
+    ),
+    "C19": dict(
+        category="exploration",
+        text="Reference clusterer (all acceptable clusterings under the duration rule), dense ground-truth "
+             "waveform model for sum_waveform / merge / split, exact formulas for the helpers; generated hit sets and "
+             "exhaustive small waveforms / index sets.",
+        design_ref="DESIGN.md §5 C19",
+        note="float32 sums compared with a stated tolerance (1e-5 * terms); known finding F17 steered around in the "
+             "chains that need disjoint peaks.",
+        technique="property-based testing + exhaustive small-scope enumeration vs reference model",
+    ),
     "C03": dict(
         category="exploration",
         text="Generated dtypes (scalar / array-valued / titled fields, both time encodings) x law-abiding chunk "
